@@ -9,6 +9,7 @@ for s in $SEEDS; do
   prop=$(python3 -c "import json;print(json.load(open('$d/meta.json'))['breaks_property'])")
   if ! git -C /repo apply --check $PWD/$d/patch.diff 2>/dev/null; then echo "$s: PATCH NO LONGER APPLIES"; continue; fi
   git -C /repo apply $PWD/$d/patch.diff
+  if [ -n "${NOREPLAY:-}" ]; then export VERIF_NO_REPLAY=1; fi
   timeout 1500 ./check $prop quick > $d/sweep_$prop.log 2>&1; rc=$?
   git -C /repo checkout -- .
   line=$(grep -E "^counterexample" $d/sweep_$prop.log | head -1 | cut -c1-160)
@@ -16,7 +17,7 @@ for s in $SEEDS; do
   python3 - <<PY
 import json
 m=json.load(open('$d/meta.json'))
-m.setdefault('sweeps',{})['$prop']={'exit':$rc,'caught':$rc==1,'counterexample':"""$line"""}
+m.setdefault('sweeps',{})['$prop'+('-generation-only' if '${NOREPLAY:-}' else '')]={'exit':$rc,'caught':$rc==1,'counterexample':"""$line"""}
 m['caught_by_own_property_check']=($rc==1)
 json.dump(m,open('$d/meta.json','w'),indent=1)
 PY
